@@ -28,20 +28,10 @@ def run(ctx):
                     regs.add(v.args[0].value)
     ctx.require(regs, "eapi.py: update_regex literals not found")
     keys = [(t, v) for t, v, _ in A.assignments(sd.node, "key")]
-    ctx.require(len(keys) == 1 and isinstance(keys[0][1], ast.IfExp), "_scan_directory: sort key expression not found")
-    ife = keys[0][1]
-    test = ife.test
-    ctx.require(isinstance(test, ast.Compare) and A.unparse(test.left) == "match.re.groups" and isinstance(test.comparators[0], ast.Constant) and type(test.ops[0]) in OPS, f"_scan_directory: sort key guard `{A.unparse(test)}` not understood")
-    for rx_ in sorted(regs):
-        g = _re.compile(rx_).groups  # group count of a literal: compiling a constant pattern, nothing of pkgcore runs
-        taken = OPS[type(test.ops[0])](g, test.comparators[0].value)
-        quarter = g >= 2
-        used = sorted({int(c.args[0].value) for c in A.calls(ife.body) if A.call_attr(c) == "group" and c.args and isinstance(c.args[0], ast.Constant)})
-        ctx.check("R1", sd, taken == quarter and (not taken or max(used, default=0) <= g), f"key-guard:{rx_}:{'taken' if taken else 'skipped'}", f"regex {rx_!r} ({g} groups): chronological key {'used' if taken else 'not used (plain name order)'}",
-                  f"for update_regex {rx_!r} ({g} groups) the guard `{A.unparse(test)}` is {taken}: " + ("quarter-named files get no (year, quarter) key and are applied in plain filename order (1Q-2020 before 4Q-2019)" if quarter else "group(2) does not exist for this regex"), node=ife)
-    q = [r for r in regs if _re.compile(r).groups >= 2]
-    ctx.check("R1", sd, len(q) == 1 and q[0] == "^([1-4])Q-(\\d{4})$", "quarter-regex", "the quarter form is <quarter>Q-<year>: group 1 quarter, group 2 year")
-    ctx.check("R1", sd, A.unparse(ife.body) == "(match.group(2), match.group(1))", "year-then-quarter", "the key is (year, quarter)", f"the chronological key is `{A.unparse(ife.body)}`, not (year, quarter)", node=ife)
+    has_key = ctx.check("R1", sd, len(keys) == 1 and isinstance(keys[0][1], ast.IfExp), "chronological-key-present", "update files get a (year, quarter) sort key",
+                        "_scan_directory computes no chronological sort key: quarter-named update files are applied in listing / plain name order (1Q-2020 before 4Q-2019)", node=sd.node)
+    if has_key:
+        _key_rules(ctx, sd, keys, regs)
     t = A.unparse(sd.node)
     ctx.check("R1", sd, "files.append((key, filename))" in t and "return [filename for _key, filename in sorted(files)]" in t.replace("(_key, filename)", "_key, filename"), "sorted-by-key", "files are returned sorted by (key, name): listing order cannot matter")
     ctx.check("R1", sd, "if match is not None" in t and "logger.error" in t, "misnamed-skipped", "files not matching the regex are skipped")
@@ -121,6 +111,22 @@ def run(ctx):
     ctx.check("R6", ru, "return [d, d]" in t and "mods = defaultdict(f)" in t, "start-equals-tail-initially", "a new name starts with start == tail")
     ctx.check("R6", pu, "mods[src.key][1].append(('slotmove', src_slot, line[3]))" in A.unparse(pu.node), "slotmove-recorded", "a slotmove is recorded at the source's tail")
     ctx.floor("R6", 4)
+
+
+def _key_rules(ctx, sd, keys, regs):
+    ife = keys[0][1]
+    test = ife.test
+    ctx.require(isinstance(test, ast.Compare) and A.unparse(test.left) == "match.re.groups" and isinstance(test.comparators[0], ast.Constant) and type(test.ops[0]) in OPS, f"_scan_directory: sort key guard `{A.unparse(test)}` not understood")
+    for rx_ in sorted(regs):
+        g = _re.compile(rx_).groups  # group count of a literal: compiling a constant pattern, nothing of pkgcore runs
+        taken = OPS[type(test.ops[0])](g, test.comparators[0].value)
+        quarter = g >= 2
+        used = sorted({int(c.args[0].value) for c in A.calls(ife.body) if A.call_attr(c) == "group" and c.args and isinstance(c.args[0], ast.Constant)})
+        ctx.check("R1", sd, taken == quarter and (not taken or max(used, default=0) <= g), f"key-guard:{rx_}:{'taken' if taken else 'skipped'}", f"regex {rx_!r} ({g} groups): chronological key {'used' if taken else 'not used (plain name order)'}",
+                  f"for update_regex {rx_!r} ({g} groups) the guard `{A.unparse(test)}` is {taken}: " + ("quarter-named files get no (year, quarter) key and are applied in plain filename order (1Q-2020 before 4Q-2019)" if quarter else "group(2) does not exist for this regex"), node=ife)
+    q = [r for r in regs if _re.compile(r).groups >= 2]
+    ctx.check("R1", sd, len(q) == 1 and q[0] == "^([1-4])Q-(\\d{4})$", "quarter-regex", "the quarter form is <quarter>Q-<year>: group 1 quarter, group 2 year")
+    ctx.check("R1", sd, A.unparse(ife.body) == "(match.group(2), match.group(1))", "year-then-quarter", "the key is (year, quarter)", f"the chronological key is `{A.unparse(ife.body)}`, not (year, quarter)", node=ife)
 
 
 F = "src/pkgcore/ebuild/pkg_updates.py"
